@@ -607,3 +607,59 @@ func ZZ_C09_truth_unlimited() {
 		zz.Assert(!active, "a string that only shares the stored signature of a live refresh token is reported inactive")
 	}
 }
+
+// ZZ_C09_truth_twice: the SAME token is introspected twice on one provider, and between the two requests the
+// world changes - the grant is revoked (by the access or the refresh token), the refresh token is exchanged,
+// the code of the grant is replayed, or the token's lifetime passes. The second answer tells the truth of ITS
+// moment: nothing of the first answer is remembered. HMAC and JWT access tokens, refresh tokens, any hint.
+func ZZ_C09_truth_twice() {
+	jwt := zz.Choice("jwt", 2) == 1
+	s := &st{jwt: jwt, w: world.NewX(world.XOptions{JWTAccess: jwt}), l: &world.Ledger{}}
+	g := s.codeGrant("c1", []string{"offline", "photos"})
+	other := s.ccGrant("c2", []string{"mail"})
+	at, rt := s.latest(g, fosite.AccessToken), s.latest(g, fosite.RefreshToken)
+	watched := at
+	if zz.Choice("watched", 2) == 1 {
+		watched = rt
+	}
+	hint := []fosite.TokenUse{fosite.AccessToken, fosite.RefreshToken}[zz.Choice("hint", 2)]
+	a1, _ := s.w.Introspect(watched.Val, hint)
+	zz.Assert(a1, "twice: a live token is active")
+	b1, _ := s.w.Introspect(s.latest(other, fosite.AccessToken).Val, fosite.AccessToken)
+	zz.Assert(b1, "twice: the bystander's token is active")
+	change := zz.Choice("change", 5)
+	switch change {
+	case 0:
+		zz.Assume(s.w.Revoke("c1", "", at.Val, "") == nil)
+		s.l.KillGrant(g)
+		s.cover("twice:revoked-by-access-token")
+	case 1:
+		zz.Assume(s.w.Revoke("c1", "", rt.Val, "") == nil)
+		s.l.KillGrant(g)
+		s.cover("twice:revoked-by-refresh-token")
+	case 2:
+		s.rotate(g) // the pair of the first generation dies, a new pair lives
+		s.cover("twice:rotated")
+	case 3:
+		zz.Advance(time.Hour + time.Duration(zz.Int("past.access", int64(2*time.Second), int64(time.Hour))))
+		s.cover("twice:access-lifetime-passed")
+	case 4:
+		zz.Advance(30*24*time.Hour + time.Duration(zz.Int("past.refresh", int64(2*time.Second), int64(time.Hour))))
+		s.cover("twice:refresh-lifetime-passed")
+	}
+	a2, _ := s.w.Introspect(watched.Val, hint)
+	zz.Observe("second.active", a2)
+	switch {
+	case change <= 2:
+		zz.Assert(!a2, "twice: a token revoked or exchanged since the first introspection is inactive at the second")
+	case change == 3 && watched == at, change == 4:
+		zz.Assert(!a2, "twice: a token whose lifetime passed since the first introspection is inactive at the second")
+	case change == 3 && watched == rt:
+		zz.Assert(a2, "twice: the refresh token outlives the access token")
+	}
+	if change <= 2 {
+		b2, _ := s.w.Introspect(s.latest(other, fosite.AccessToken).Val, fosite.AccessToken)
+		zz.Assert(b2, "twice: the bystander's token is still active")
+	}
+	s.flushCovers()
+}
